@@ -52,6 +52,7 @@ class PMEval(Evaluator):
         super().__init__(fname, items, all_items, dict(CONSTS))
         self.used_params = set()
         self.alias = {}     # reference to a generated definition -> its defining term
+        self.apod_fmt = "(p_apod p {z})"
 
     def sub(self, fname):
         s = PMEval(fname, self.all_items.get(("__file__", fname), []), self.all_items)
@@ -219,7 +220,7 @@ class PMEval(Evaluator):
                 return self.param("p_k_eff")
             if name == "integration_constant" and len(args) == 2 and args[1] == P("p_L") and self.is_r(args[0]):
                 self.used_params.add("p_apod")
-                return R(f"(p_apod p {args[0]})")
+                return R(self.apod_fmt.format(z=args[0]))
             self.fail(f"spdc.pp.{name}(…) is not a modelled accessor", e)
         if rv == QUAD:
             args = [self.ev(a, env) for a in argexprs]
@@ -357,6 +358,49 @@ def gen_pm_integrand(repo, out):
     body.append(em.text())
     body.append(f"Definition pm_integrand (p : pm_params) (z : R) : C :=\n  {val}.\n")
     integrand_lets = [d[0] for d in em.defs]
+
+    # ---- the closure once more, as a function of its captured coefficients (nested lets): pm_closure
+    outer_ty = {d[0]: d[1] for d in em.defs if not d[3]}
+
+    def paths(e, acc):
+        if isinstance(e, tuple):
+            if e and e[0] == "path" and len(e[1]) == 1:
+                acc.add(e[1][0])
+            for x in e:
+                paths(x, acc)
+        elif isinstance(e, list):
+            for x in e:
+                paths(x, acc)
+        return acc
+    used = paths(cbody, set())
+    captured = [d[0] for d in em.defs if not d[3] and d[0] in used]
+    cenv2 = dict(tail[3])
+    for nme in captured:
+        cenv2[nme] = CX(nme) if outer_ty[nme] == "C" else R(nme)
+    cenv2[zname] = R("z")
+    ev.apod_fmt = "(apod {z})"
+    lets_txt = []
+    seen = set()
+    for st in cbody[1]:
+        if st[0] == "use":
+            continue
+        if st[0] != "let" or st[3] is None:
+            raise Untranslatable(cpath, it.span[0], "closure statement outside the subset")
+        nme = st[1][1] if st[1][0] == "pbind" else st[1][1][0]
+        v = ev.ev(st[3], cenv2)
+        if not isinstance(v, (CX, R)) or nme in seen or nme in captured:
+            raise Untranslatable(cpath, it.span[0], f"closure let {nme}")
+        seen.add(nme)
+        ty = "C" if isinstance(v, CX) else "R"
+        lets_txt.append(f"  let {nme} : {ty} := {v} in")
+        cenv2[nme] = CX(nme) if ty == "C" else R(nme)
+    res = ev.ev(cbody[2], cenv2)
+    ev.apod_fmt = "(p_apod p {z})"
+    binders = " ".join(f"({n} : {outer_ty[n]})" for n in captured)
+    body.append("(* ---- the same closure as a function of its captured coefficients (every `let` of the closure body as a Coq let) ---- *)\n"
+                f"Definition pm_closure (apod : R -> R) {binders} (z : R) : C :=\n" + "\n".join(lets_txt) + f"\n  {res}.\n")
+    body.append("Definition pm_closure_of (p : pm_params) (z : R) : C :=\n  pm_closure (p_apod p) "
+                + " ".join(f"(pm_{n} p)" for n in captured) + " z.\n")
 
     # ------------------------------------------------------------------ phasematch_fiber_coupling
     it = find_fn(citems, "phasematch_fiber_coupling")
